@@ -98,6 +98,17 @@ type vfC07Vec struct {
 
 var vfC07Fail = errors.New("vf: socket failure")
 
+// vfC07SlowErr is the same failure, but describing it takes a while (an error value whose text is built on demand):
+// whatever the writer does with the error of a partial write before it has recorded the connection as unusable, the
+// writers queued behind it get that much time (scheduling only - no verdict depends on the duration)
+type vfC07SlowErr struct{ d time.Duration }
+
+func (e vfC07SlowErr) Error() string {
+	time.Sleep(e.d)
+	return vfC07Fail.Error()
+}
+func (e vfC07SlowErr) Unwrap() error { return vfC07Fail }
+
 func vfC07ErrClass(err error) string {
 	if err == nil {
 		return "none"
@@ -324,6 +335,7 @@ func TestVfC07Concurrent(t *testing.T) {
 		if limit >= 0 && r%4 >= 2 {
 			sock.once = true
 			sock.slow = 2 * time.Millisecond
+			sock.failErr = vfC07SlowErr{3 * time.Millisecond}
 		}
 		quit := make(chan struct{})
 		var w contextWriter
